@@ -40,16 +40,18 @@ CHESS_TRUST = ["decoding of FEN text in the driver uses Model.Fen.decode (itself
 PROPS["C01"] = dict(
     modules=["Morlock.Props.C01", "Morlock.Props.GenTie"],
     streams=["c01"],
-    level_text="Lean: the model generator (transcription of PseudoLegalMoves/Move/LegalMoves over rotated bitboards, piece lists and masks "
-               "regenerated from source) is proved to be 'pseudo-legal filtered by Move' in generator order, and the enums/lists/masks it depends on are "
-               "re-proved equal to the source on every run (GenTie). The equality with the FIDE set (Spec.legalMoves on a mailbox board, validated "
-               "by perft against published counts) is decided by the differential stream on every position generated - that part is exploration, not proof.",
-    level_note="Trusted: Lean kernel; Model.Position tied to the code by exact comparison of ordered move lists with all six fields and legality flags; "
-               "Spec.Chess as the reference (perft-validated). The Perm theorem C01.Statement is not proved.",
-    technique="Lean 4 model + reference semantics executed by a compiled driver; differential impl/model/spec on generated positions; perft; partial proof",
+    level_text="Lean theorems (full): on every position whose views agree (Rep) and that satisfies the decidable WF (at most one king per side, castling rights imply the king at home, "
+               "an e.p. target only on the right rank, empty, behind an enemy pawn) the model's legal moves, read through absMove, are a PERMUTATION of the FIDE legal moves of the "
+               "reference semantics (legal_perm: exactly the set, each once); per move kind: officers, king steps, pawn pushes / double steps / captures / promotions x4 / en passant, "
+               "both castlings (officers_iff, pawns_iff, castles_iff, pseudo_iff, pseudo_nodup); every generated move carries accurate kind / piece / capture metadata "
+               "(pseudo_metaOK: MetaOK and ClassOK); Move accepts a generated move iff the rules call it legal (move_isSome_iff_legal); WF is proved necessary (two kings). The enums, "
+               "piece lists and masks the generator depends on are re-proved equal to the Go source on every run (GenTie). Tie: ordered move lists with all six fields and legality "
+               "flags impl vs model exact; impl vs reference as sets; perft vs reference and published counts.",
+    level_note="Trusted: Lean kernel; Model.Position tied by exact comparison on generated positions; Spec.Chess as the reference (perft-validated against the published counts).",
+    technique="Lean 4 proof staged by move kind (bitboard shifts and attack tables vs mailbox rules via the Rep relation and the C06 table theorems) + differential impl/model/spec + perft",
     rule="positions from the 53-FEN corpus, biased random playouts (castling/e.p./promotion/check weighted), synthetic well-formed placements incl. odd material; "
          "non-trivial = position with check, e.p. right, castling move, promotion, an illegal pseudo-legal move (pin/king walk), mate or stalemate; distinct by the 4 FEN position fields",
-    partial=["C01.Statement (model legal moves ~ reference legal moves, all positions) is NOT a theorem yet: decided by impl-vs-spec comparison only"],
+    partial=[],
     modelled=["board/position.go: PseudoLegalMoves, emitMove, emitPromo, captureAt, Move, LegalMoves, IsAttackedBy, IsChecked, safeCastlingSquares -> Model.Position",
               "board/bitboard.go: attack tables and pawn boards -> Model.Attack", "board/move.go -> Model.Types"],
     trusted=CHESS_TRUST,
@@ -88,19 +90,21 @@ PROPS["C19"] = dict(
 )
 
 PROPS["C06"] = dict(
-    modules=["Morlock.Props.C06", "Morlock.Props.GenTie"],
+    modules=["Morlock.Props.C06", "Morlock.Props.C06Queries", "Morlock.Props.C01", "Morlock.Props.GenTie"],
     streams=["c06", "playq"],
     level_text="Lean theorems (full, no enumeration of boards): for every square and EVERY occupancy < 2^64 the rook/bishop/queen attackboards computed through the "
                "rotated bitboards and the generated index tables equal the ray sets of the reference geometry (first blocker included); king, knight and pawn "
                "boards equal their step sets; NewRotatedBitboard establishes and Xor preserves the rotation invariant (tables proved injective). The table "
                "constants are read from Morlock.Gen (regenerated from bitboard.go on every run) inside kernel-evaluated facts, so a changed constant re-opens "
-               "the proof. Derived queries (IsAttacked/IsChecked/IsCheckMate/FindCapture/FindPins) are decided by the differential stream (exploration).",
+               "the proof. Derived queries: IsAttacked / IsDefended / IsChecked equal the reference 'some enemy piece attacks the square' on every represented position "
+               "(C06Queries.isAttacked_eq, isChecked_eq; needs the symmetry of the attack relation, proved), IsCheckMate = in check and no reference legal move (C01.isCheckMate_iff_spec). "
+               "FindCapture / FindPins are decided by the differential stream (exploration).",
     level_note="Trusted: Lean kernel (decide +kernel for the 64-square geometric side conditions); Model.Attack transcription of the init loops tied by an exhaustive "
                "run over all 64 x 256 line states per line through the exported API; Spec.Chess ray geometry.",
     technique="Lean 4 proof: lock-step induction scan loop vs reference ray + kernel-decided table facts; exhaustive differential over line states",
     rule="exhaustive: 64 squares x 256 states of the rank, file and both diagonals (+ queen on rank|file), all squares for K/N/P; random full occupancies; derived queries on generated positions; "
          "non-trivial = (square, line state) pair / position with check, pin, e.p., castling or promotion; distinct by (sq,state) or position key",
-    partial=["derived queries (isAttacked, isChecked, isCheckMate, findCapture, findPins) are compared impl vs model vs spec on generated positions, not yet theorems"],
+    partial=["eval.FindCapture and eval.FindPins are not transcribed: exercised only through the historical engines' evaluations (C20 stream)"],
     modelled=["board/bitboard.go: init loops of king, knight, rookrank, rookfile, bishopL, bishopR; Rook/Bishop/Queen/King/KnightAttackboard, Attackboard, "
               "RotatedBitboard.Xor, NewRotatedBitboard, PawnCaptureboard -> Model.Attack; the seven index tables -> Gen.Tables (generated)"],
     exhaustive=True,
@@ -155,17 +159,21 @@ PROPS["C08"] = dict(
 )
 
 PROPS["C05"] = dict(
-    modules=["Morlock.Props.C08", "Morlock.Props.GenTie"],
+    modules=["Morlock.Props.C05", "Morlock.Props.GenTie"],
     streams=["game"],
-    level_text="Decided on every run by comparing, after every push/pop/fork of generated game histories, the result the board reports with the draw conditions recomputed from the "
-               "WHOLE history by the reference (Spec.Game: occurrences of the position in the full line incl. the start, standard half-move clock from the set-up clock, "
-               "material rule with (file+rank) colour). Lean: the limits 3/5/100 and the one-colour mask are re-proved from the source on every run (GenTie), and the history "
-               "sharing needed for 'forked boards detect repetitions against their common past' is a theorem (C08.fork_shares_past, fork_replays). The refinement "
-               "'reported draw = drawNow(history)' itself is not yet a theorem.",
-    level_note="Trusted: Lean kernel; Model.Board tied by the game stream; Spec.Game as the reference. Reason precedence when several conditions hold is not prescribed: any holding reason is accepted.",
-    technique="differential impl/model/spec over game histories (repetition shuffles, clocks near 100, captures to bare kings, forks) + Lean facts on limits, mask, shared history",
-    rule="histories in 4 styles (biased, shuffling, quiet, mixed) from 20 draw-prone starts + corpus + synthetic; non-trivial = history reaching a draw (rep3/rep5/np/mat), adjudication, fork, pop or special move; distinct by script",
-    partial=["complete/sound refinement theorem (board result = drawNow of history) not proved: exploration only"],
+    level_text="Lean theorems (full): PushMove reports a draw iff the position just reached has occurred >= 3 times on the WHOLE line (start included) or the clock >= 100 or the "
+               "move was a capture / under-promotion into insufficient material, with the reason by precedence and 'five-fold' from 5 (draw_iff, draw_sound, draw_complete, "
+               "result_characterisation); the repetition scan over the reversible tail equals the whole-line count (repetition_count_exact: the loop bound that includes the position "
+               "right after the last irreversible move; irreversibility DERIVED from the rules by a decreasing measure: irreversible_from_rules); the hash pre-filter never hides a "
+               "repetition (prefilter_complete, RepMapOK invariant over newBoard/push/pop/fork incl. forks: repMap_invariant); the half-move clock is exact and castling does not reset it "
+               "(clock_exact); HasInsufficientMaterial = K v K / K+minor v K / two bishops on one colour (material_iff, material_iff_spec); adjudication = checkmate iff in check "
+               "(adjudicate); and the link to the reference history semantics Spec.Game.drawReasons for whole games (spec_link, game_link). Tie: after every push/pop/fork of generated "
+               "histories the reported result vs the draw conditions recomputed from the whole history by the reference.",
+    level_note="Trusted: Lean kernel; Model.Board tied by the game stream; Spec.Game as the reference. Hypotheses kept explicit: moves are generated moves of the side to move (GoodMove / MoveSound, "
+               "decidable: playCheck), set-up clock >= 0, two kings for the material rule. Reason precedence when several conditions hold is not prescribed by the property: any holding reason is accepted by the stream.",
+    technique="Lean 4 refinement proof (arena line vs whole-history count; decreasing measure for irreversibility; C07 for hash faithfulness) + differential game histories",
+    rule="histories in 4 styles (biased, shuffling, quiet, mixed) from 24 draw-prone starts + corpus + synthetic; non-trivial = history reaching a draw (rep3/rep5/np/mat), adjudication, fork, pop or special move; distinct by script",
+    partial=[],
     modelled=["board/board.go: PushMove draw logic, identicalPositionCount, updateNoProgress, AdjudicateNoLegalMoves; position.go HasInsufficientMaterial -> Model.Board / Model.Position"],
 )
 
